@@ -200,6 +200,7 @@ func (r *SparseIntVector) VMULV(a, b *SparseIntVector) *SparseIntVector {
   if n := r.Dim(); a.Dim() != n || b.Dim() != n {
     panic("vector dimensions do not match")
   }
+  zero := NullInt()
   for it := r.JOINT3_ITERATOR_(a, b); it.Ok(); it.Next() {
     s_r := it.s1
     s_a := it.s2
@@ -208,8 +209,13 @@ func (r *SparseIntVector) VMULV(a, b *SparseIntVector) *SparseIntVector {
       s_r = r.AT(it.Index())
     }
     switch {
-    case s_a.ptr == nil || s_b.ptr == nil:
+    case s_a.ptr == nil && s_b.ptr == nil:
       s_r.SetInt(0.0)
+    case s_a.ptr == nil:
+      // a missing entry is a zero, and 0*Inf or 0*NaN is not zero
+      s_r.MUL(zero, s_b)
+    case s_b.ptr == nil:
+      s_r.MUL(s_a, zero)
     default:
       s_r.MUL(s_a, s_b)
     }
@@ -236,6 +242,7 @@ func (r *SparseIntVector) VMULS(a *SparseIntVector, b Int) *SparseIntVector {
   if r.Dim() != a.Dim() {
     panic("vector dimensions do not match")
   }
+  zero := NullInt()
   for it := r.JOINT_ITERATOR_(a); it.Ok(); it.Next() {
     s_r := it.s1
     s_a := it.s2
@@ -243,7 +250,8 @@ func (r *SparseIntVector) VMULS(a *SparseIntVector, b Int) *SparseIntVector {
       s_r = r.AT(it.Index())
     }
     if s_a.ptr == nil {
-      s_r.SetInt(0.0)
+      // a missing entry is a zero, and 0*Inf or 0*NaN is not zero
+      s_r.MUL(zero, b)
     } else {
       s_r.MUL(s_a, b)
     }
@@ -306,6 +314,7 @@ func (r *SparseIntVector) VDIVS(a *SparseIntVector, b Int) *SparseIntVector {
     r.VdivS(a, b)
     return r
   }
+  zero := NullInt()
   for it := r.JOINT_ITERATOR_(a); it.Ok(); it.Next() {
     s_r := it.s1
     s_a := it.s2
@@ -313,7 +322,8 @@ func (r *SparseIntVector) VDIVS(a *SparseIntVector, b Int) *SparseIntVector {
       s_r = r.AT(it.Index())
     }
     if s_a.ptr == nil {
-      s_r.SetInt(0.0)
+      // a missing entry is a zero, and 0/NaN is not zero
+      s_r.DIV(zero, b)
     } else {
       s_r.DIV(s_a, b)
     }
